@@ -71,6 +71,7 @@ class Builder:
                 self.vars.append(pt.ScratchVar(TT[v["t"]], v["slot"]))
             else:
                 self.vars.append(pt.ScratchVar(TT[v["t"]]))
+        self.dyns = {}
         self.routines = {}
         for rid, r in enumerate(prog.get("rt", []), 1):
             self.routines[rid] = self._make_routine(rid, r)
@@ -183,6 +184,13 @@ class Builder:
             return self.vars[node["i"][0] - 1].store(B(a[0]))
         if k == "Idx":
             return self.vars[node["i"][0] - 1].index()
+        if k in ("DynSet", "DynLoad", "DynStore"):
+            d = self.dyns.setdefault(node["i"][0], pt.DynamicScratchVar(pt.TealType.uint64))
+            if k == "DynSet":
+                return d.set_index(self.vars[node["i"][1] - 1])
+            if k == "DynLoad":
+                return d.load()
+            return d.store(B(a[0]))
         if k == "PVal":
             return params[node["i"][0] - 1]
         if k == "PLoad":
